@@ -229,7 +229,9 @@ def run_cg(case):
     lsmax = cjmax = 0.0
     for h in hist:
         k = h["k"]
-        if h["npd"]:
+        if h["npd"] and anorm(M, h["x"] - xstar) > 1e-8 * e0 + 1e-12 * unit:
+            # (once the residual is exactly zero the search direction is zero too and
+            # p^H A p = 0 takes the same branch: a stop at the solution, not a false alarm)
             return violated(sig, "positive-definite system flagged as not positive definite "
                             "at update %d" % k, wit, mech="false-breakdown")
         if not h["same"]:
